@@ -401,7 +401,11 @@ def i3(ctx):
         normok = False
         if neg is not None:
             t = [w for (w, lab) in cfg.succ[neg.idx] if lab is True]
-            for w in t:
+            fl = [w for (w, lab) in cfg.succ[neg.idx] if lab is False]
+            # the normalisation is on the negative branch only (anywhere on it, not necessarily
+            # its first statement)
+            only_neg = cfg.forward_reachable(t) - cfg.forward_reachable(fl)
+            for w in only_neg:
                 a = cfg.nodes[w].ast
                 if a is not None and a.kind == 'CompoundAssignOperator' and a.op == '+=' and \
                         member_path(a.kids[0]) == iname and 'arity' in a.kids[1].text(4):
